@@ -55,7 +55,11 @@ def run_job(job):
                         sigma[nm] = val
                         vs.append(sympy.Symbol(nm))
                         vn.append(val)
-                ops_sym.append(MultiVector.fromkeysvalues(alg, tuple(keys), vs))
+                if rng.random() < 0.25 and keys:
+                    # string coefficients are sympified at construction (public constructor)
+                    ops_sym.append(alg.multivector(keys=tuple(keys), values=[str(v) if isinstance(v, sympy.Basic) else v for v in vs]))
+                else:
+                    ops_sym.append(MultiVector.fromkeysvalues(alg, tuple(keys), vs))
                 ops_num.append(MultiVector.fromkeysvalues(alg, tuple(keys), vn))
             raised, rs = '', None
             try:
